@@ -8,7 +8,7 @@ import ast
 import re
 
 from ..core.tree import AnalysisError
-from ..core.astutil import walk_no_nested, call_name, short, src
+from ..core.astutil import walk_no_nested, call_name, short, src, resolve_local
 from ..engines import pathrules as PR
 from ..spec import cea608
 
@@ -21,7 +21,7 @@ def run(ctx, report):
     report.covered(fn)
     # the scan loop: the `for` whose body compares a length with 32
     loops = [n for n in walk_no_nested(fn.node) if isinstance(n, ast.For) and
-             any(isinstance(c, ast.Compare) and re.search(r"len\([^()]+\) >=? \d+", src(c)) for c in walk_no_nested(n))
+             any(isinstance(c, ast.Compare) and re.search(r"len\([^()]+\) >=? [\w.]+", src(c)) for c in walk_no_nested(n))
              and "msg" not in [src(t) for s in n.body if isinstance(s, ast.AugAssign) for t in [s.target]]]
     loops = [l for l in loops if not any(isinstance(x, ast.For) and x is not l and l in list(walk_no_nested(x)) for x in loops)]
     if len(loops) != 1:
@@ -106,15 +106,29 @@ def run(ctx, report):
     ok_split = isinstance(g.iter, ast.Call) and isinstance(g.iter.func, ast.Attribute) and g.iter.func.attr == "split" \
         and len(g.iter.args) == 1 and isinstance(g.iter.args[0], ast.Constant) and g.iter.args[0].value == "\n"
     cond = [src(c) for c in g.ifs]
-    m = re.fullmatch(rf"len\({re.escape(var)}\) (>|>=) (\d+)", cond[0]) if len(cond) == 1 else None
+    m = re.fullmatch(rf"len\({re.escape(var)}\) (>|>=) (.+)", cond[0]) if len(cond) == 1 else None
     limit = None
     if m:
-        limit = int(m.group(2)) - (1 if m.group(1) == ">=" else 0)
+        # the bound: a literal, or a name with exactly one constant definition (module / class constant or local);
+        # a bound that depends on options or on the stream is not the constant the property names
+        folder = ctx.memo("folder", lambda: __import__("sa.core.constfold", fromlist=["Folder"]).Folder(ctx.index))
+        bexpr = g.ifs[0].comparators[0]
+        defs = [n for n in walk_no_nested(fn.node) if isinstance(n, (ast.Assign, ast.AugAssign)) and
+                src(n.targets[0] if isinstance(n, ast.Assign) else n.target) == src(bexpr)]
+        try:
+            if len(defs) > 1:
+                raise AnalysisError("several definitions")
+            val = folder.eval_in(fn.module, resolve_local(fn, bexpr))
+            limit = (val if isinstance(val, int) else None)
+            if limit is not None and m.group(1) == ">=":
+                limit -= 1
+        except AnalysisError:
+            limit = f"not a constant: {m.group(2)}" + (f" (assigned {len(defs)} times)" if len(defs) > 1 else "")
     report.check(ok_split and limit == cea608.SCREEN_COLUMNS and src(comp.elt) == var, "R-THRESHOLD", (fn, comp),
                  "a line is an offender exactly when it is longer than 32 characters (text split at line breaks)",
                  {"comprehension": short(comp), "limit": limit}, "2")
     text_src = src(g.iter.func.value) if ok_split else None
-    from .c02 import resolve_local
+    pass
     resolved = src(resolve_local(_LoopFn(fn, lp), g.iter.func.value)) if ok_split else ""
     ok_text = re.fullmatch(rf"''\.join\({re.escape(cap)}(\.to_real_caption\(\))?\.get_text_nodes\(\)\)", resolved) is not None
     report.check(ok_text, "R-WHOLE-TEXT", (fn, lp),
